@@ -2,6 +2,7 @@ package stream
 
 import (
 	"fmt"
+	"math"
 	"strconv"
 	"strings"
 	"sync"
@@ -121,11 +122,11 @@ func encodeOne(v any) string {
 	}
 	// 数值按 SQL 语义归一：1(int)/1.0(float64)/1(uint) 视作相等。否则 JSON 流解码
 	// 出的 float64 键与类型化维度表的 int 键永不匹配，INNER JOIN 静默丢行。
-	if f, ok := numericKeyFloat(v); ok {
-		if f == 0 {
-			f = 0 // 归一 -0.0 → 0
-		}
-		return "n:" + strconv.FormatFloat(f, 'f', -1, 64)
+	// Integers are rendered exactly (no float64 round trip, which merges distinct
+	// integers beyond 2^53); an integral float is rendered as the same exact
+	// integer, so 1 and 1.0 still share one key.
+	if s, ok := numericKeyString(v); ok {
+		return "n:" + s
 	}
 	switch x := v.(type) {
 	case string:
@@ -137,27 +138,42 @@ func encodeOne(v any) string {
 	return fmt.Sprintf("%T:%v", v, v)
 }
 
-// numericKeyFloat 返回数值类型的 float64 表示；非数值返回 ok=false。
-func numericKeyFloat(v any) (float64, bool) {
+// numericKeyString returns the canonical decimal text of a numeric key value;
+// ok=false for non-numeric values. Equal numbers have equal texts whatever their
+// Go type, and different numbers have different texts.
+func numericKeyString(v any) (string, bool) {
 	switch x := v.(type) {
 	case float64:
-		return x, true
+		return floatKeyString(x), true
 	case float32:
-		return float64(x), true
+		return floatKeyString(float64(x)), true
 	case int:
-		return float64(x), true
+		return strconv.FormatInt(int64(x), 10), true
 	case int64:
-		return float64(x), true
+		return strconv.FormatInt(x, 10), true
 	case int32:
-		return float64(x), true
+		return strconv.FormatInt(int64(x), 10), true
 	case uint:
-		return float64(x), true
+		return strconv.FormatUint(uint64(x), 10), true
 	case uint64:
-		return float64(x), true
+		return strconv.FormatUint(x, 10), true
 	case uint32:
-		return float64(x), true
+		return strconv.FormatUint(uint64(x), 10), true
 	}
-	return 0, false
+	return "", false
+}
+
+// floatKeyString renders a float key: -0.0 as 0, an integral value as its exact
+// integer digits (the text the same integer has as an int key), anything else in
+// the shortest form that parses back to the same float.
+func floatKeyString(f float64) string {
+	if f == 0 {
+		return "0" // 归一 -0.0 → 0
+	}
+	if f == math.Trunc(f) && !math.IsInf(f, 0) {
+		return strconv.FormatFloat(f, 'f', 0, 64)
+	}
+	return strconv.FormatFloat(f, 'f', -1, 64)
 }
 
 // tableStore holds registered table sources keyed by name. It is concurrency-safe.
